@@ -25,7 +25,11 @@ MANIFEST = {
             'rendered through dtml-in on the real code; count, total, min, '
             'max, mean, both variances, both standard deviations and the '
             'median printed on the last element are compared with values '
-            'computed exactly from the non-None data.',
+            'computed exactly from the non-None data (the text domain '
+            'includes the empty string).  Family order: every ordered '
+            'triple of requests (statistic, column) over two columns and '
+            'six statistics is rendered; each printed value must be that '
+            'of its own column whatever was requested before.',
     'note': 'Trusted: the Fraction-based reference in this driver; floats '
             'are compared to 1e-9 relative (absolute 1e-12; 1e-6 for a '
             'standard deviation whose true value is 0, because sqrt '
